@@ -89,7 +89,7 @@ def gen_world(rng, prop, long_dim=False):
     flags = [False, False] if prop == "C11" else [rng.chance(0.4), rng.chance(0.4)]
     # typed dimensions promise a conversion of the labels found in the table: ints written as text, number-like strings given as ints
     layout["label_repr"] = {d["name"]: (rng.choice(["native", "native", "converted"]) if d["dtype"] in ("int", "str") else "native") for d in dims}
-    layout["row_index"] = rng.weighted([("range", 4), ("permuted", 2), ("offset", 1)])
+    layout["row_index"] = rng.weighted([("range", 4), ("permuted", 2), ("offset", 1), ("repeated", 2)])
     layout["int_values"] = rng.chance(0.15)  # whole-number values in an integer typed column
     layout["blank_headers"] = rng.chance(0.5)
     layout["axis_name"] = rng.choice([None, None, "name", "letter"])
@@ -261,6 +261,10 @@ def to_dataframe(frame, index, layout=None, dims=None):
             df.index = list(np.random.RandomState(len(df)).permutation(len(df)))
         elif ri == "offset":
             df.index = [7 + 3 * i for i in range(len(df))]
+        elif ri == "repeated" and len(df) > 1:
+            # chunks glued together with pd.concat and no ignore_index: every row label occurs in each chunk
+            half = (len(df) + 1) // 2
+            df.index = [i % half for i in range(len(df))]
     return df
 
 
@@ -278,6 +282,8 @@ def _to_dataframe(frame, index):
                     data[i] = pd.Series([np.nan if v is None else float(v) for v in col], dtype="float64")
                 else:
                     data[i] = pd.Series([np.nan if v is None else v for v in col], dtype="object")
+            elif any(isinstance(v, (RespInt, RespStr)) for v in col):
+                data[i] = pd.Series([_respell(v) for v in col], dtype="object")
             else:
                 data[i] = pd.Series(col)
     df = pd.DataFrame(data)
@@ -302,6 +308,22 @@ def _index_dims(df, frame, index, dimcols):
         df = df.set_index(dimcols)
         df.index.names = [None] * len(dimcols)
     return df
+
+
+class RespInt(int):
+    """an int label that the table spells as text ("2000" in a column that otherwise holds 2000)"""
+
+
+class RespStr(str):
+    """a number-like text label that the table holds as a number (7 in a column that otherwise holds "7")"""
+
+
+def _respell(v):
+    if isinstance(v, RespInt):
+        return str(int(v))
+    if isinstance(v, RespStr):
+        return int(v)
+    return v
 
 
 # ============================================================================= faults on the frame
@@ -386,6 +408,30 @@ def apply_fault(frame, f, dims, st):
                 return False
             frame.rows[i][k] = others[f.get("item", 0) % len(others)]
             return True
+    if kind == "dup_row_respelled":
+        # a second row for one label combination in which one label is spelled the other way a typed dimension accepts: "2000" next
+        # to 2000 for an int dimension, 7 next to "7" for a str dimension.  After the promised conversion the two rows carry the same labels
+        dimcols = [k for k, c in enumerate(frame.cols) if c["role"] == "dim" and c.get("ident") == "name"
+                   and (dl[c["dim"]].dtype is int or (dl[c["dim"]].dtype is str and all(str(x).isdigit() for x in dl[c["dim"]].items)))]
+        if nrows == 0 or not dimcols:
+            return False
+        row = list(frame.rows[f["row"] % nrows])
+        k = dimcols[f.get("col", 0) % len(dimcols)]
+        if row[k] is None or isinstance(row[k], (RespInt, RespStr)) or isinstance(row[k], bool):
+            return False
+        if dl[frame.cols[k]["dim"]].dtype is int:
+            if not isinstance(row[k], int):
+                return False
+            row[k] = RespInt(row[k])
+        else:
+            if not isinstance(row[k], str):
+                return False
+            row[k] = RespStr(row[k])
+        for j, c in enumerate(frame.cols):
+            if c["role"] in ("value", "wide") and row[j] is not None:
+                row[j] = row[j] + 1000.0
+        frame.rows.insert(f.get("pos", 0) % (nrows + 1), row)
+        return True
     if kind == "append_unknown_row":
         # a surplus row: every label taken from an existing row, one of them replaced by an unknown item; value blank or a number
         dimcols = [k for k, c in enumerate(frame.cols) if c["role"] == "dim" and c.get("ident") == "name"]
@@ -448,7 +494,8 @@ def apply_fault(frame, f, dims, st):
     return False
 
 
-RECORD_FAULTS = ["drop_row", "drop_item", "dup_row_same", "dup_row_other", "relabel_unknown", "relabel_known", "blank_value", "blank_label", "append_unknown_row"]
+RECORD_FAULTS = ["drop_row", "drop_item", "dup_row_same", "dup_row_other", "relabel_unknown", "relabel_known", "blank_value", "blank_label", "append_unknown_row",
+                 "dup_row_respelled"]
 COLUMN_FAULTS = ["drop_dim_col", "add_junk_col", "rename_wide_col", "dup_wide_col"]
 
 
@@ -675,7 +722,7 @@ class IoChan(Engine):
         ncols = len(world["dims"]) + 4
         for row in range(min(nrows, 27)):
             for kind in RECORD_FAULTS:
-                for col in range(min(ncols, len(world["dims"]) + 1) if kind in ("relabel_unknown", "relabel_known", "blank_label", "blank_value", "drop_item") else 1):
+                for col in range(min(ncols, len(world["dims"]) + 1) if kind in ("relabel_unknown", "relabel_known", "blank_label", "blank_value", "drop_item", "dup_row_respelled") else 1):
                     faults.append({"f": kind, "row": row, "col": col, "pos": row, "item": 0, "seed": 0})
         for kind in COLUMN_FAULTS:
             for col in range(len(world["dims"])):
